@@ -126,7 +126,7 @@ func ruleC12_2(c *Ctx, r *Rep) {
 			continue
 		}
 		ok := false
-		for _, ci := range callsIn(fn, true, func(cal *ssa.Function, _ ssa.CallInstruction) bool {
+		for _, ci := range c.callsInOp(fn, func(cal *ssa.Function, _ ssa.CallInstruction) bool {
 			return strings.HasSuffix(fnPkgPath(cal), "grpc/status") && (cal.Name() == "Error" || cal.Name() == "Errorf")
 		}) {
 			if code, isC := constInt(ci.Common().Args[0]); isC && code == 6 { // codes.AlreadyExists
@@ -459,7 +459,8 @@ func checkKeyset(c *Ctx, r *Rep, hk string, h *ssa.Function, sel *Stmt) {
 	tok := sel.Find("", "id", "gt")
 	okTok := len(tok) == 1 && sources(tok[0].Arg)["field:PageToken"]
 	if okTok {
-		okTok = condHas(tok[0].Conds, true, func(v ssa.Value) bool { return cmpOn(v, []token.Token{token.NEQ}, "field:PageToken") })
+		okTok = condHas(tok[0].Conds, true, func(v ssa.Value) bool { return cmpOn(v, []token.Token{token.NEQ}, "field:PageToken") }) ||
+			condHas(tok[0].Conds, true, func(v ssa.Value) bool { return tokenPresentVerdict(c, v) })
 	}
 	okLimit := sel.HasLimit && sources(sel.Limit)["field:PageSize"]
 	r.Check("C12.5", "C12.5:keyset@"+hk, sel.Pos, okOrder && okTok && okLimit, "ORDER BY id ASC, id > token, LIMIT pageSize",
@@ -560,6 +561,61 @@ func checkKeyset(c *Ctx, r *Rep, hk string, h *ssa.Function, sel *Stmt) {
 	}
 	walk(h, 0)
 	r.Check("C12.5", "C12.5:next-token@"+hk, sel.Pos, okNext, "next token = id of the last scanned row iff a full page was scanned", why)
+}
+
+// tokenPresentVerdict: v is a boolean result of a private helper that was given the request's page token, and the
+// helper returns true for that result only on paths where its token parameter is not the empty string
+// (`pageID, ok, err := parsePageToken(req.PageToken)`).
+func tokenPresentVerdict(c *Ctx, v ssa.Value) bool {
+	ex, ok := v.(*ssa.Extract)
+	if !ok {
+		return false
+	}
+	call, ok := ex.Tuple.(*ssa.Call)
+	if !ok {
+		return false
+	}
+	h := call.Call.StaticCallee()
+	if h == nil || !c.inModule(h) || len(h.Blocks) == 0 {
+		return false
+	}
+	var p *ssa.Parameter
+	for i, a := range call.Call.Args {
+		if sources(a)["field:PageToken"] && i < len(h.Params) {
+			p = h.Params[i]
+		}
+	}
+	if p == nil {
+		return false
+	}
+	n := 0
+	for _, ret := range returnsOf(h) {
+		if ex.Index >= len(ret.Results) {
+			return false
+		}
+		rv := retResult(ret, ex.Index)
+		if k, isK := rv.(*ssa.Const); isK && k.Value != nil && k.Value.String() == "false" {
+			continue
+		}
+		n++
+		nonEmpty := false
+		for _, cd := range edgeConds(ret.Block()) {
+			nc := normCond(cd.V, cd.Pol)
+			bo, isB := nc.V.(*ssa.BinOp)
+			if !isB {
+				continue
+			}
+			if s, isS := constString(bo.Y); isS && s == "" && resolve(bo.X) == ssa.Value(p) {
+				if (bo.Op == token.NEQ) == nc.Pol {
+					nonEmpty = true
+				}
+			}
+		}
+		if !nonEmpty {
+			return false
+		}
+	}
+	return n > 0
 }
 
 // isResultOf: v is exactly the (first) result of call.
